@@ -8,6 +8,7 @@ use rand::Rng;
 use serde_json::{json, Value};
 
 use crate::describe::*;
+use response_time_analysis::arrival::ArrivalBound;
 
 pub fn is_superadditive(dm: &[u64]) -> bool {
     let n = dm.len();
@@ -148,9 +149,12 @@ pub fn leaf(rng: &mut StdRng, o: &Opts) -> Value {
 pub fn derived(rng: &mut StdRng, o: &Opts, depth: u32) -> Value {
     let src = arrival(rng, depth.saturating_sub(1), &Opts { allow_never: false, allow_derived: false, ..Opts::all(o.tmax) });
     let sp = span(&src).max(2);
+    // well-formed conversions (DESIGN.md §3.2): more jobs than the source's initial burst, so that the
+    // recorded prefix ends with a positive distance (used to choose the request only, never to judge)
+    let burst = std::panic::catch_unwind(|| build_arrival(&src).number_arrivals(d(1)) as u64).unwrap_or(1);
     match rng.gen_range(0..7) {
         0 => json!({"k": "cfrom", "how": "until", "arg": rng.gen_range(sp..=3 * sp), "of": src}),
-        1 => json!({"k": "cfrom", "how": "njobs", "arg": rng.gen_range(4..=12), "of": src}),
+        1 => json!({"k": "cfrom", "how": "njobs", "arg": burst + rng.gen_range(2..=10), "of": src}),
         2 => {
             let t = rng.gen_range(1..=o.tmax);
             let of = if rng.gen_bool(0.5) {
